@@ -52,10 +52,14 @@ struct Shared {
     uint32_t n_nt;
     uint64_t nt[8192];
     uint32_t plan_len;
-    char plan_text[1 << 20];
+    char plan_text[48u << 20];
 };
-static Shared g_private_shared;
-static Shared *g_sh = &g_private_shared;
+// the private instance only needs the note/bind area (the large tail is never touched)
+static Shared *make_private_shared() {
+    void *m = mmap(nullptr, sizeof(Shared), PROT_READ | PROT_WRITE, MAP_PRIVATE | MAP_ANONYMOUS | MAP_NORESERVE, -1, 0);
+    return (Shared *)m;
+}
+static Shared *g_sh = make_private_shared();
 
 void ctx_note(const std::string &s) {
     size_t n = std::min(s.size(), sizeof(g_sh->ctx) - 1);
